@@ -251,7 +251,7 @@ impl Sub for SamplerZ {
         // rejections), always followed by a seeded uniform tail so that the loop terminates
         let script = prop_oneof![
             3 => Just(vec![]),
-            3 => (0usize..120, prop_oneof![Just(0u8), Just(0xFFu8)], 0.0f64..0.9, any::<u64>()).prop_map(|(len, b, p, seed)| {
+            3 => (prop_oneof![6 => 0usize..120, 1 => 120usize..3000], prop_oneof![Just(0u8), Just(0xFFu8)], prop_oneof![4 => 0.0f64..0.9, 1 => Just(1.0f64)], any::<u64>()).prop_map(|(len, b, p, seed)| {
                 let mut s = seed;
                 (0..len)
                     .map(|_| {
@@ -418,7 +418,7 @@ fn mean_offset(mu: f64, sigma: f64) -> f64 {
 }
 
 const META: Meta = Meta {
-    rule: "five sub-checks against refimpl::sampler (integer-exact transcription of Algorithms 12-15): (1) BaseSampler on every breakpoint RCDT[i]-2..+2, 0, 2^72-1, log-uniform and uniform 72-bit inputs, non-trivial = within 1 of a breakpoint or below 2^40; (2) ApproxExp bit-exact on x in [0, ln 2] (uniform, dyadic, subnormal, ln 2 - ulp) and ccs in (0,1] (1.0, sigma_min/sigma' for both variants, key generation's), plus the analytic bound |result - 2^63 ccs e^-x| <= 2^-45 * 2^63; (3) BerExp on x in [0,60] including k ln 2 +- ulps and s >= 63, with the 7 bytes uniform or computed from the model to tie on the first d = 0..7 bytes and the next byte below/equal/above, non-trivial = tie depth >= 1; with d = 7 only totality is required; where division and multiplication by 1/ln 2 give different floor(x/ln 2) either answer is accepted; (4) SamplerZ differential (same output and same number of bytes consumed) for mu in [-32736, 32736] (integers, half-integers, ulps around integers), sigma' in [sigma_min, 1.8205] for both variants and key generation, on uniform and 0x00/0xFF-biased scripted byte prefixes with a seeded uniform tail, non-trivial = at least 2 loop iterations or z0 >= 6; (5) chi-square goodness of fit of N uniform-stream samples against D_{Z,mu,sigma'} on cells centre-12..centre+12 plus tails (cells with expectation < 25 merged), per-run false-alarm probability 1e-9 (Bonferroni over the tests of the run). Distinct by hash of the case.",
+    rule: "five sub-checks against refimpl::sampler (integer-exact transcription of Algorithms 12-15): (1) BaseSampler on every breakpoint RCDT[i]-2..+2, 0, 2^72-1, log-uniform and uniform 72-bit inputs, non-trivial = within 1 of a breakpoint or below 2^40; (2) ApproxExp bit-exact on x in [0, ln 2] (uniform, dyadic, subnormal, ln 2 - ulp) and ccs in (0,1] (1.0, sigma_min/sigma' for both variants, key generation's), plus the analytic bound |result - 2^63 ccs e^-x| <= 2^-45 * 2^63; (3) BerExp on x in [0,60] including k ln 2 +- ulps and s >= 63, with the 7 bytes uniform or computed from the model to tie on the first d = 0..7 bytes and the next byte below/equal/above, non-trivial = tie depth >= 1; with d = 7 only totality is required; where division and multiplication by 1/ln 2 give different floor(x/ln 2) either answer is accepted; (4) SamplerZ differential (same output and same number of bytes consumed) for mu in [-32736, 32736] (integers, half-integers, ulps around integers), sigma' in [sigma_min, 1.8205] for both variants and key generation, on uniform and 0x00/0xFF-biased scripted byte prefixes (up to 3000 bytes, i.e. more than a hundred consecutive rejections) with a seeded uniform tail, non-trivial = at least 2 loop iterations or z0 >= 6; (5) chi-square goodness of fit of N uniform-stream samples against D_{Z,mu,sigma'} on cells centre-12..centre+12 plus tails (cells with expectation < 25 merged), per-run false-alarm probability 1e-9 (Bonferroni over the tests of the run). Distinct by hash of the case.",
     assumptions: &[
         "oracle: refimpl::sampler; its RCDT is re-derived by tools/derive_constants.py as sum_{j>i} floor(2^72 rho(j)/sum rho), its ApproxExp is accurate to 2^-44 against libm exp, and it reproduces the specification's known-answer vectors (refimpl self-tests)",
         "the sampler draws one byte per RngCore::next_u32 call (rand 0.8 semantics for u8), which the scripted byte source reproduces",
